@@ -350,46 +350,53 @@ theorem drawStyled_eq_run (pl : Polyline) (w : Nat) (hw : 2 ≤ w) :
     intro s _
     simp only [Function.comp, moveS_toRectangle]
 
-/-- **`pixels()` of a stroked polyline of width > 1** walks the scanlines of the run point by
-point — provided the model's pixel budget was not used up (`ps.length < budget`; the budget is a
-bound of the model's `for` loop, not of the code). -/
-theorem pixels_eq_run (pl : Polyline) (w : Nat) (hw : 2 ≤ w) (bb : Rect)
-    (hbb : untranslatedBoundingBox pl w = some bb) (ps : List Pt) (hps : pixels pl w = some ps)
-    (hlt : ps.length < polyPixelBudget bb * (pl.vertices.length + 1)) :
-    ∃ L, polyScanlineRun pl w = some L ∧
-      ps = L.flatMap (fun s => (moveS s pl.translate).points) := by
-  obtain ⟨si, hsi, hok⟩ := PolyScanlines.new_total pl w
-  obtain ⟨L, hL, hrun, hne⟩ := polyLines si hok
-  refine ⟨L, by unfold polyScanlineRun; rw [hsi]; exact hL, ?_⟩
-  obtain ⟨it, hit, hpix⟩ := polyPix_new pl w si hsi L hrun hne
-  obtain ⟨k, rfl⟩ : ∃ k, w = k + 2 := ⟨w - 2, by omega⟩
-  unfold pixels at hps
-  simp only [hbb, hit, Option.bind_eq_bind, Option.bind_some] at hps
-  rw [polyThickPixels_toListFuel_eq] at hps
-  have hrun2 := listFuel_run _ it ps hps hlt
-  rw [hrun2.unique hpix, List.map_flatMap]
-  apply flatMap_congr_left
-  intro s _
-  rw [moveS_points]
+theorem flatMap_length_le_sum {α β : Type} (L : List α) (f : α → List β) (g : α → Nat)
+    (h : ∀ a, (f a).length ≤ g a) : (L.flatMap f).length ≤ (L.map g).sum := by
+  induction L with
+  | nil => simp
+  | cons a L ih =>
+    rw [List.flatMap_cons, List.length_append, List.map_cons, List.sum_cons]
+    have := h a
+    omega
 
-/-- Whatever the budget: the model's `pixels()` of a stroked polyline of width > 1 is the first
-`budget` points of the scanlines of the run walked point by point (so `PolyPixelBudgetOK` fails only
-by truncation). -/
-theorem pixels_prefix_run (pl : Polyline) (w : Nat) (hw : 2 ≤ w) (bb : Rect)
-    (hbb : untranslatedBoundingBox pl w = some bb) :
+/-- The model's fuel for `pixels()` in terms of the scanline run. -/
+theorem polyPixelFuel_eq (pl : Polyline) (w : Nat) (L : List Scanline)
+    (hL : polyScanlineRun pl w = some L) :
+    polyPixelFuel pl w = some ((L.map (fun s => (s.xe - s.xs).toNat)).sum + 1) := by
+  unfold polyScanlineRun at hL
+  unfold polyPixelFuel
+  cases hsi : PolyScanlines.new pl w with
+  | none => rw [hsi] at hL; cases hL
+  | some si =>
+    rw [hsi] at hL
+    dsimp only at hL
+    simp only [hL, Option.bind_eq_bind, Option.bind_some, pure]
+
+/-- **`pixels()` of a stroked polyline of width > 1 is the complete pixel run**: it walks the
+scanlines of the scanline run (what the `for` loop of `draw_thick` sees) point by point; the model's
+fuel (the total length of those scanlines, plus one) is never used up. -/
+theorem pixels_eq_run (pl : Polyline) (w : Nat) (hw : 2 ≤ w) :
     ∃ L, polyScanlineRun pl w = some L ∧
-      pixels pl w = some ((L.flatMap (fun s => (moveS s pl.translate).points)).take
-        (polyPixelBudget bb * (pl.vertices.length + 1))) := by
+      pixels pl w = some (L.flatMap (fun s => (moveS s pl.translate).points)) := by
   obtain ⟨si, hsi, hok⟩ := PolyScanlines.new_total pl w
   obtain ⟨L, hL, hrun, hne⟩ := polyLines si hok
-  refine ⟨L, by unfold polyScanlineRun; rw [hsi]; exact hL, ?_⟩
+  have hLr : polyScanlineRun pl w = some L := by unfold polyScanlineRun; rw [hsi]; exact hL
+  refine ⟨L, hLr, ?_⟩
   obtain ⟨it, hit, hpix⟩ := polyPix_new pl w si hsi L hrun hne
   obtain ⟨k, rfl⟩ : ∃ k, w = k + 2 := ⟨w - 2, by omega⟩
   unfold pixels
-  simp only [hbb, hit, Option.bind_eq_bind, Option.bind_some]
-  rw [polyThickPixels_toListFuel_eq, hpix.listFuel_take, List.map_flatMap]
-  congr 3
-  funext s
+  simp only [polyPixelFuel_eq pl (k + 2) L hLr, hit, Option.bind_eq_bind, Option.bind_some]
+  rw [polyThickPixels_toListFuel_eq]
+  have hlen : ((L.flatMap Scanline.points).map (· + pl.translate)).length <
+      (L.map (fun s => (s.xe - s.xs).toNat)).sum + 1 := by
+    rw [List.length_map]
+    have := flatMap_length_le_sum L Scanline.points (fun s => (s.xe - s.xs).toNat)
+      (fun s => by rw [Scanline.points_length])
+    omega
+  rw [hpix.listFuel _ hlen, List.map_flatMap]
+  congr 1
+  apply flatMap_congr_left
+  intro s _
   rw [moveS_points]
 
 /-! ### the write sequences of `draw()` and of `draw_iter(pixels())` -/
@@ -426,12 +433,9 @@ def polyRects : PolyDraw → List Rect
 /-- **Stroked polyline, every width: the writes of `draw()` are the pixels of `pixels()`, in the
 same order** — nothing for width 0; one `draw_iter` of `points()` for width 1; for width > 1 every
 `fill_solid` rectangle is one scanline, written left to right, and `pixels()` walks the same
-scanlines in the same order. `hlt`: the model's pixel budget was not used up; `hr`: no rectangle
-saturates `i32`. -/
+scanlines in the same order. `hr`: no rectangle saturates `i32`. -/
 theorem poly_writes (pl : Polyline) (w : Nat) (c : Color) (B : Rect) (d : PolyDraw) (ps : List Pt)
     (hd : drawStyled pl w = some d) (hps : pixels pl w = some ps)
-    (hlt : ∀ bb, 2 ≤ w → untranslatedBoundingBox pl w = some bb →
-      ps.length < polyPixelBudget bb * (pl.vertices.length + 1))
     (hr : ∀ r ∈ polyRects d, r.InRange) :
     (polyCalls c d).flatMap (Call.lowerNative B) = ps.map (fun p => (p, c)) := by
   rcases Nat.lt_or_ge w 2 with hw | hw
@@ -446,7 +450,10 @@ theorem poly_writes (pl : Polyline) (w : Nat) (c : Color) (B : Rect) (d : PolyDr
       simp [polyCalls, Call.lowerNative]
   · obtain ⟨bb, hbb⟩ := untranslatedBoundingBox_total pl w
     obtain ⟨L, hL, hne, hd'⟩ := drawStyled_eq_run pl w hw
-    obtain ⟨L', hL', hps'⟩ := pixels_eq_run pl w hw bb hbb ps hps (hlt bb hw hbb)
+    obtain ⟨L', hL', hps''⟩ := pixels_eq_run pl w hw
+    have hps' : ps = L'.flatMap (fun s => (moveS s pl.translate).points) := by
+      rw [hps] at hps''; exact Option.some.inj hps''
+    clear hps''
     rw [hL] at hL'
     simp only [Option.some.injEq] at hL'
     subst hL'
@@ -487,20 +494,9 @@ def PolyRectsInRange (pl : Polyline) (w : Nat) : Prop :=
 instance (pl : Polyline) (w : Nat) : Decidable (PolyRectsInRange pl w) := by
   unfold PolyRectsInRange; split <;> exact inferInstance
 
-/-- Guard (model artefact): the fuel with which the model drains `pixels()` of a polyline of width
-> 1 (`polyPixelBudget bb * (n + 1)`) was not used up, i.e. the model's pixel list is complete
-(nothing to ask for widths 0 and 1). -/
-def PolyPixelBudgetOK (pl : Polyline) (w : Nat) : Prop :=
-  match pixels pl w, untranslatedBoundingBox pl w with
-  | some ps, some bb => w < 2 ∨ ps.length < polyPixelBudget bb * (pl.vertices.length + 1)
-  | _, _ => True
-
-instance (pl : Polyline) (w : Nat) : Decidable (PolyPixelBudgetOK pl w) := by
-  unfold PolyPixelBudgetOK; split <;> exact inferInstance
-
-/-- `poly_writes` with the optional colour and the two guards. -/
+/-- `poly_writes` with the optional colour and the range guard. -/
 theorem polyStyled_writes (pl : Polyline) (w : Nat) (sc : Option Color) (B : Rect)
-    (hr : PolyRectsInRange pl w) (hb : PolyPixelBudgetOK pl w) (calls : List Call) (px : Writes)
+    (hr : PolyRectsInRange pl w) (calls : List Call) (px : Writes)
     (hc : polyStyledCalls pl w sc = some calls) (hp : polyStyledPixels pl w sc = some px) :
     calls.flatMap (Call.lowerNative B) = px := by
   cases sc with
@@ -523,15 +519,9 @@ theorem polyStyled_writes (pl : Polyline) (w : Nat) (sc : Option Color) (B : Rec
         simp only [Option.map_some, Option.some.injEq] at hc hp
         subst hc hp
         apply poly_writes pl w c B d ps hd hps
-        · intro bb hw hbb
-          unfold PolyPixelBudgetOK at hb
-          rw [hps, hbb] at hb
-          rcases hb with hb | hb
-          · omega
-          · exact hb
-        · unfold PolyRectsInRange at hr
-          rw [hd] at hr
-          exact hr
+        unfold PolyRectsInRange at hr
+        rw [hd] at hr
+        exact hr
 
 end C01Thick
 end EG
